@@ -1249,6 +1249,10 @@ pub open spec fn write_frame(old: World, fin: World, base: PathV, name: Seq<u8>,
              '&& !r.unwrap().unwrap().can_write() && r.unwrap().unwrap().offset() == 0' % (TARGET, TARGET)),
             ('C09:hit-marks-the-entry-as-read-whatever-the-atime-policy',
              'r.is_ok() && r.unwrap().is_some() && final(w).hard_faults == old(w).hard_faults ==> final(w).accessed(%s)' % TARGET),
+            ('C16:success-means-the-name-is-a-valid-key', 'r.is_ok() ==> valid_key(str_bytes(name))'),
+            ('C01:a-hit-holds-bytes-some-writer-supplied-for-exactly-this-key',
+             'r.is_ok() && r.unwrap().is_some() && old(w).configured_dir(self.spec_base()) ==> final(w).inodes.contains_key(r.unwrap().unwrap().ino()) '
+             '&& final(w).supplied.contains((str_bytes(name), final(w).inodes[r.unwrap().unwrap().ino()].content))'),
             ('C05 C04 C11 C18:miss-means-absent',
              'r.is_ok() && r.unwrap().is_none() ==> !old(w).files.contains_key(%s) && final(w).same_fs(*old(w))' % TARGET),
             ('C04 C11 C18:present-entry-is-found',
@@ -1256,7 +1260,7 @@ pub open spec fn write_frame(old: World, fin: World, base: PathV, name: Seq<u8>,
             ('C18 C05:error-is-an-invalid-name-or-a-real-fault',
              'r.is_err() ==> !first_byte_ok(str_bytes(name)) || str_bytes(name).contains(0x2fu8) || final(w).hard_faults > old(w).hard_faults'),
         ])
-    g.body_start('broadcast use group_asref;')
+    g.body_start('broadcast use group_asref;\n        proof { if valid_key(str_bytes(name)) && old(w).configured_dir(self.spec_base()) && old(w).files.contains_key(%s) { lemma_entry_supplied(*old(w), self.spec_base(), str_bytes(name)); } }' % TARGET)
     u.trait_methods = {'get': g}
 
     # touch
